@@ -7,11 +7,11 @@ from .. import common, gen, b1
 # literal's natural type, anything else evaluated as written.
 PALETTE = {
     "u8": [("100", "100u8"), ("200u8", "200u8"), ("b'a'", "b'a'"), ("1 + 1", "2u8")],
-    "u16": [("3", "3u16"), ("3u16", "3u16"), ("3u8", "u16::from(3u8)")],
-    "i64": [("7", "7i64"), ("7i32", "i64::from(7i32)"), ("-5", "-5i64"), ("7i64", "7i64")],
-    "f64": [("1.5", "1.5f64"), ("2f32", "f64::from(2f32)"), ("3", "f64::from(3i32)"), ("1.5f64", "1.5f64")],
+    "u16": [("3", "3u16"), ("3u16", "3u16"), ("3u8", "u16::from(3u8)"), ("b'A'", "u16::from(b'A')")],
+    "i64": [("7", "7i64"), ("7i32", "i64::from(7i32)"), ("-5", "-5i64"), ("7i64", "7i64"), ("b'z'", "i64::from(b'z')")],
+    "f64": [("1.5", "1.5f64"), ("2f32", "f64::from(2f32)"), ("3", "f64::from(3i32)"), ("1.5f64", "1.5f64"), ("b'0'", "f64::from(b'0')")],
     "bool": [("true", "true")],
-    "char": [("'x'", "'x'")],
+    "char": [("'x'", "'x'"), ("b'q'", "char::from(b'q')")],
     "&'static str": [('"hi"', '"hi"')],
     "String": [('"hi"', 'String::from("hi")'), ("String::new()", "String::new()"), ("'c'", "String::from('c')")],
     "W": [("7u8", "W::from(7u8)"), ("5", "W::from(5i32)"), ('"s"', 'W::from("s")'), ("true", "W::from(true)"),
@@ -21,7 +21,7 @@ PALETTE = {
 }
 NO_DEFAULT = {"&'static [u8; 2]"}
 UNION_PALETTE = {
-    "u32": [("7", "7u32"), ("9u32", "9u32"), ("3u8", "u32::from(3u8)")],
+    "u32": [("7", "7u32"), ("9u32", "9u32"), ("3u8", "u32::from(3u8)"), ("b'A'", "u32::from(b'A')")],
     "i32": [("-1", "-1i32"), ("5", "5i32")],
     "f32": [("1.5", "1.5f32"), ("2f32", "2f32")],
     "[u8; 4]": [("[1, 2, 3, 4]", "[1u8, 2, 3, 4]")],
